@@ -3,47 +3,53 @@
    Models: Model/SeqDec.v (xmlSeqToMapParser over RawToken lists), Model/SeqEnc.v (MapSeq.Xml /
    XmlIndent / mapToXmlSeqIndent / elemListSeq.Less / BeautifyXml); specification: Spec/SeqSpec.v. *)
 From Coq Require Import Permutation Sorting.Sorted.
-From Mxj Require Import Spec.SeqSpec Proofs.C04Sort Proofs.C04Map Proofs.C04P.
+From Mxj Require Import Spec.SeqSpec Proofs.C04Sort Proofs.C04Map Proofs.C04Tok Proofs.C04P
+     Proofs.C04Shape Proofs.C04ShapeDec.
 
-(* The round trip, for every document of the domain in which a text run stands alone in its
-   element (no size or depth bound; any interleaving of equally and differently named siblings;
-   prefixed names; xmlns attributes; <= 1 comment, directive, PI per element at any position;
-   any values when XMLEscapeChars(true) is set, values free of the five specials otherwise):
+(* The round trip, for every document of the property's domain (no size or depth bound; any
+   interleaving of equally and differently named siblings; prefixed names; xmlns attributes; <= 1
+   comment, directive, PI per element at any position; text alone in its element or before its child
+   elements; any values when XMLEscapeChars(true) is set, values free of the five specials otherwise):
    NewMapXmlSeq succeeds with m; MapSeq.Xml, MapSeq.XmlIndent and BeautifyXml produce the same items;
    and for EVERY whitespace inserted at element boundaries (every blank prefix / indent) the
    normalised RawToken stream of the output equals the normalised RawToken stream of the document:
    same names (with prefix) in the same order, same attributes in the same order with the same
    values, same text, same comments / directives / PIs in the same positions. *)
-Theorem seq_roundtrip_partial :
-  forall (pf : str -> option flt) (skip : str -> bool) (esc : bool) (d : node),
-    dom04_alone (seq_o esc) d = true ->
+Theorem seq_roundtrip :
+  forall (pf : str -> option flt) (skip : str -> bool) (e : bool) (d : node),
+    dom04 (seq_o e) d = true ->
     exists m its,
-      seq_decode pf skip (seq_o esc) false (rawtoks_of d) TermEOF = Ok m /\
-      seq_encode (seq_o esc) m = Ok its /\
-      seq_encode_indent (seq_o esc) m = Ok its /\
-      beautify_items pf skip (seq_o esc) (rawtoks_of d) TermEOF = Ok its /\
+      seq_decode pf skip (seq_o e) false (rawtoks_of d) TermEOF = Ok m /\
+      seq_encode (seq_o e) m = Ok its /\
+      seq_encode_indent (seq_o e) m = Ok its /\
+      beautify_items pf skip (seq_o e) (rawtoks_of d) TermEOF = Ok its /\
       forall ws, normalize (rawtoks_of_items (insert_ws ws its)) = normalize (map rt_of_tok (rawtoks_of d)).
-Proof. exact roundtrip_alone. Qed.
-Print Assumptions seq_roundtrip_partial.
+Proof. exact roundtrip_all. Qed.
+Print Assumptions seq_roundtrip.
 
-(* NOT PROVED: seq_roundtrip, the same statement under [dom04] (text may also PRECEDE the child
-   elements, as the property's quantifier allows).  It is FALSE of the faithful model, hence of the
-   code: witness below; recorded as finding key=text-before-children-panics. *)
-Theorem seq_roundtrip_refuted :
-  exists d, dom04 (seq_o true) d = true /\
-    exists m, seq_decode (fun _ => None) (fun _ => false) (seq_o true) false (rawtoks_of d) TermEOF = Ok m /\
-              seq_encode (seq_o true) m = Panic /\ seq_encode_indent (seq_o true) m = Panic.
-Proof. exact roundtrip_refuted. Qed.
-Print Assumptions seq_roundtrip_refuted.
+(* NOT PROVED (beyond the property's statement; C16 states determinism): the same conclusion for every
+   deep reordering of the entries of m.  What is proved for every order is the step that depends on
+   it: sort_by_seq_recovers_order and attributes_in_original_order below; the correspondence run
+   presents every MapSeq to the model with shuffled entry lists. *)
+
+(* [rawtoks_of_items] does not merge adjacent character data as the tokenizer does.  The only adjacency
+   the encoders produce is a text run followed by the indentation of the first child; under
+   [normalize] the merged and the unmerged reading agree: *)
+Theorem text_followed_by_indentation_merges :
+  forall o v w,
+    value_ok o v = true ->
+    normalize (rawtoks_of_items [SI (IText (esc o v ++ ws_str w))])
+    = normalize (rawtoks_of_items [SI (IText (esc o v)); SI (IText (ws_str w))]).
+Proof. exact text_then_ws_merges. Qed.
+Print Assumptions text_followed_by_indentation_merges.
 
 (* Key lemma: sort.Sort with elemListSeq.Less returns the entries in increasing sequence-number
    order - the document order - for EVERY order [l] in which the Go map iteration presents them,
-   provided the numbers are pairwise distinct (strictly increasing along [e]) and every value is a map. *)
+   provided the numbers are pairwise distinct (strictly increasing along [e]). *)
 Theorem sort_by_seq_recovers_order :
   forall (A : Type) (o : opts) (val : A -> value) (l e : list A),
     Permutation l e ->
     StronglySorted (fun a b => (seq_num o (val a) < seq_num o (val b))%Z) e ->
-    forallb (fun x => is_map (val x)) e = true ->
     seq_sort o val l = Ok e.
 Proof. exact (@seq_sort_recovers). Qed.
 Print Assumptions sort_by_seq_recovers_order.
@@ -74,20 +80,37 @@ Theorem beautify_is_indent_after_decode :
 Proof. intros. reflexivity. Qed.
 Print Assumptions beautify_is_indent_after_decode.
 
-(* On the proved sub-domain the decoder's output never makes an encoder panic (for C15);
-   outside it, it does: seq_roundtrip_refuted. *)
-Theorem seq_encode_no_panic_on_decoded :
-  forall pf skip e d,
-    dom04_alone (seq_o e) d = true ->
-    exists m, seq_decode pf skip (seq_o e) false (rawtoks_of d) TermEOF = Ok m /\
-              seq_encode (seq_o e) m <> Panic /\ seq_encode_indent (seq_o e) m <> Panic.
-Proof. exact encode_total_alone. Qed.
-Print Assumptions seq_encode_no_panic_on_decoded.
+(* Shape invariant of the decoder's output (also used by C15).  For EVERY RawToken stream - well
+   formed or not, any terminator, any cast flag - whose start-tag names are non-empty and none of the
+   generated keys (XML names cannot begin with '#'), a Map returned by NewMapXmlSeq is a singleton
+   {key: value} with [seq_shape value key] ... *)
+Theorem seq_decode_output_shape :
+  forall pf skip (e r : bool) ts tm m,
+    forallb (tok_ok e) ts = true ->
+    seq_decode pf skip (seq_o e) r ts tm = Ok m ->
+    exists k v, m = VMap [(k, v)] /\ str_ok e k = true /\ seq_shape e v k = true.
+Proof. exact seq_decode_shape. Qed.
+Print Assumptions seq_decode_output_shape.
+
+(* ... the encoder never panics on a value of that shape ... *)
+Theorem seq_encode_never_panics_on_shape :
+  forall (e : bool) v k, seq_shape e v k = true -> senc (seq_o e) v k <> Panic.
+Proof. exact senc_nopanic. Qed.
+Print Assumptions seq_encode_never_panics_on_shape.
+
+(* ... hence MapSeq.Xml and MapSeq.XmlIndent never panic on a decoded MapSeq *)
+Theorem seq_decoded_never_panics :
+  forall pf skip (e r : bool) ts tm m,
+    forallb (tok_ok e) ts = true ->
+    seq_decode pf skip (seq_o e) r ts tm = Ok m ->
+    seq_encode (seq_o e) m <> Panic /\ seq_encode_indent (seq_o e) m <> Panic.
+Proof. exact seq_decoded_encodable. Qed.
+Print Assumptions seq_decoded_never_panics.
 
 (* ---------------- non-vacuity ---------------- *)
 (* example_doc (Proofs/C04P.v): prefixed root with an xmlns attribute and values with specials, children
-   a, comment, b, PI, a, directive, ns:c - it is in the domain, and these are the bytes the model writes *)
-Example c04_example_in_domain : dom04_alone (seq_o true) example_doc = true.
+   a, comment, b, PI, a, directive, ns:c (text before its children) - it is in the domain, and these are the bytes the model writes *)
+Example c04_example_in_domain : dom04 (seq_o true) example_doc = true.
 Proof. vm_compute. reflexivity. Qed.
 
 Example c04_example_roundtrip :
@@ -98,7 +121,7 @@ Example c04_example_roundtrip :
             end
   | _ => []
   end
-  = s "<ns:doc xmlns:ns=""urn:x"" id=""&lt;&amp;&gt;"" ns:k=""it&apos;s""><a>one</a><!-- note --><b z=""1"" a=""2""/><?pi data?><a>a&lt;b</a><!D x><ns:c><a/><b>q&quot;q</b></ns:c></ns:doc>".
+  = s "<ns:doc xmlns:ns=""urn:x"" id=""&lt;&amp;&gt;"" ns:k=""it&apos;s""><a>one</a><!-- note --><b z=""1"" a=""2""/><?pi data?><a>a&lt;b</a><!D x><ns:c>lead<a/><b>q&quot;q</b></ns:c></ns:doc>".
 Proof. vm_compute. reflexivity. Qed.
 
 (* the sort lemma's hypotheses are met by a shuffled a,b,a with sequence numbers 2,0,1 *)
@@ -108,8 +131,19 @@ Example c04_sort_example :
   = Ok [(s "a", VMap [(s "#seq", VInt 0)]); (s "b", VMap [(s "#seq", VInt 1)]); (s "a", VMap [(s "#seq", VInt 2)])].
 Proof. vm_compute. reflexivity. Qed.
 
-(* the witness of the refutation is the document <a>text<b/></a> *)
-Example c04_refutation_witness :
-  map rt_of_tok (rawtoks_of witness_text_before_child)
-  = [RStart (s "a") []; RChar (s "text"); RStart (s "b") []; REnd (s "b"); REnd (s "a")].
-Proof. reflexivity. Qed.
+(* <a>text<b/></a>, on which the encoders panicked before fix 3cc484a, is in the domain and comes back *)
+Example c04_text_before_child :
+  dom04 (seq_o true) witness_text_before_child = true /\
+  match seq_decode (fun _ => None) (fun _ => false) (seq_o true) false (rawtoks_of witness_text_before_child) TermEOF with
+  | Ok m => match seq_encode (seq_o true) m with Ok its => semit its | _ => [] end
+  | _ => []
+  end = s "<a>text<b/></a>".
+Proof. vm_compute. split; reflexivity. Qed.
+
+(* the hypothesis of the shape theorems is met by the example document and by a malformed stream
+   (stray end tag after the root, truncated second element) *)
+Example c04_tok_ok_example : forallb (tok_ok true) (rawtoks_of example_doc) = true.
+Proof. vm_compute. reflexivity. Qed.
+Example c04_tok_ok_malformed :
+  forallb (tok_ok true) [TStart (xn "a") []; TChar (s "t"); TStart (xn "b") []; TEnd (xn "b"); TEnd (xn "a"); TEnd (xn "x"); TStart (xn "c") []] = true.
+Proof. vm_compute. reflexivity. Qed.
